@@ -289,6 +289,11 @@ func attackStrings(jail string, r *vk.Rng, extra int) [][2]string {
 		{"sibling-sidecar", "../victim/" + vk.ResumeDirName + "/x"}, {"sibling-victim-dir", "../victim"}, {"sibling-victim-dir-deep", "a/../../victim"}, {"sibling-dir", "../dircanary/f"}, {"sibling-file", "../sibling.txt"},
 		{"percent", "%2e%2e/evil"}, {"tilde", "~/evil"}, {"unicode-dots", "．．/evil"}, {"leading-slash-rel", "/evil"},
 		{"resume-dir-name", vk.ResumeDirName}, {"dotdot-resume", "../" + vk.ResumeDirName},
+		// segments that turn into ".." when a later stage drops or folds characters
+		// (control characters, DEL, C1 controls, zero-width and BOM characters, fullwidth dots)
+		{"ctl-dotdot-1", ".\x01./evil"}, {"ctl-dotdot-2", ".\x01./.\x02./evil"}, {"ctl-dotdot-tab", ".\t./evil"}, {"ctl-dotdot-nl", ".\n./evil"}, {"del-dotdot", ".\x7f./evil"},
+		{"c1-dotdot", ".\u0085./evil"}, {"zw-dotdot", ".\u200b./evil"}, {"bom-dotdot", ".\ufeff./evil"}, {"ctl-dotdot-deep", "a/.\x01./.\x01./.\x01./evil"}, {"ctl-dotdot-victim", ".\x01./victim/" + vk.ResumeDirName + "/x"},
+		{"ctl-dotdot-sidecar-id", ".\x01./.\x01./evil"}, {"space-dotdot", ". ./evil"}, {"dotdot-trailing-space", ".. /evil"}, {"dotdot-trailing-ctl", "..\x01/evil"},
 		{"sibling-name-prefix-1", "../out-archive"}, {"sibling-name-prefix-2", "../out2"}, {"sibling-name-prefix-3", "../outer/inner"}, {"sibling-name-prefix-4", "../out.bak"},
 		{"sibling-name-prefix-file", "../out-archive/keep.txt"}, {"sibling-name-prefix-slash", "../out2/"}, {"sibling-name-prefix-mid", "x/../../out-archive"},
 	}
